@@ -96,6 +96,10 @@ def check(run):
         extra = [ShellSpec(0, [-0.6, 0.3, 0.2], [2.0, 0.6], [[0.4], [0.7]])] if k >= 2 else []
         one_case(run, [s1, s2] + extra, eri=True)
         run.count("single-primitive shells with several contraction columns")
+    from checks.common import mutate_returned_spherical_objects
+    mutate_returned_spherical_objects(3)
+    one_case(run, [s_.copy(sph=True) for s_ in gen(rng, 3, 3, 0.3, 5.0, dependent=False, spread=1.0)])
+    run.count("after the caller modified objects returned by gbasis.spherical")
     for k in range(2 if quick else 10):
         n = 1 + k % (2 if quick else 3)
         one_case(run, gen(rng, n, 1 if quick else 2, 0.1, 10.0, dependent=(k % 2 == 0 and not quick), spread=[0.0, 2.0, 4.0][k % 3]), eri=True)
